@@ -527,7 +527,7 @@ Facts ==
   /\ PrintT(<<"count", "t3 queries", NT3>>)
   /\ PrintT(<<"count", "join cases", Count({i \in 1..Len(Cases) : Len(QueryAt(Cases[i].q).join) > 0})>>)
   /\ PrintT(<<"count", "t3 cases", Count({i \in 1..Len(Cases) : QueryAt(Cases[i].q).tbl = "t3"})>>)
-  /\ PrintT(<<"count", "multi-column GROUP BY cases telling groups apart by a later column",
+  /\ PrintT(<<"count", "multi-column GROUP BY split cases",
               Count({i \in 1..Len(Cases) : LET sh == QueryAt(Cases[i].q).shape IN sh.kind = "group" /\ Len(sh.by) > 1
                        /\ Cardinality({Cases[i].rows[n][1] : n \in 1..Len(Cases[i].rows)}) < Len(Cases[i].rows)})>>)
   /\ PrintT(<<"count", "predicates", NP>>)
